@@ -46,7 +46,39 @@ def run(p: Project, tier: str) -> Result:
     check_wrap(p, ws, r, 'C02.R2')
     check_index_agreement(ws, r)
     check_mutator_vocabulary(p, ws, r)
+    check_no_failure_after_removal(ws, r)
     return r
+
+
+def check_no_failure_after_removal(ws, r):
+    """R7: once `get` has taken the item out of the holding lists it returns it: no raising exit is reachable after the removal.  (A test of the
+    removed item itself - `if item:` instead of `if item is not None:` - makes every falsy item, 0 or '' or an empty kit, vanish: removed, never
+    returned, and the call fails although the reservation was granted.)"""
+    r.rule('C02.R7', 'get has no failure exit after the item has left the holding lists', 6)
+    for w in ws:
+        r.ctx = ctx_of(w)
+        s = w.store
+        H = set(s.holders)
+        fi = w.root_funcs['get']
+        r.analysed_functions.add(fi.key)
+        key = f'{s.ci.label}.get::no-failure-after-removal'
+        bad = None
+        n = 0
+        for pa in w.roots['get']:
+            evs = pa.events
+            rm = next((i for i, e in enumerate(evs) if e.kind == 'op' and e.list in H and e.op in ('pop', 'remove')), None)
+            if rm is None:
+                continue
+            n += 1
+            if pa.raises and pa.status[1] not in ('<loopcut>', '<backedge>'):
+                last_cond = next((e for e in reversed(evs[rm:]) if e.kind == 'cond' and not e.d.get('synthetic')), None)
+                bad = bad or (pa, f'get removes the item from `{evs[rm].list}` and then fails with {pa.status[1]}'
+                                  + (f' when `{last_cond.text}` is {bool(last_cond.polarity)}' if last_cond is not None else '')
+                                  + ': the item is gone from the store and was never handed out')
+        if n == 0:
+            continue
+        (r.ok if not bad else r.fail)('C02.R7', key, f'{n} path(s) remove an item, all of them return it' if not bad else bad[1], src(fi.module), fi.node.lineno,
+                                      *([bad[0].describe()] if bad else []))
 
 
 COVERED_OPS = {'append', 'insert', 'pop', 'remove', 'index', 'count', 'copy'}
